@@ -44,8 +44,9 @@ PROPERTY_META = {
     'C09': dict(not_covered='every modular / number-theoretic function except bn_mod_2b and bn_mod_basic (the latter over the ASSUMED division kernel: range and sign of the residue, not Q*m + R == a) and every recoding except bn_rec_win '
                 '(bn_rec_reg: frame/length/error behaviour only; bn_rec_slw/naf/tnaf/jsf/glv/sac/frb: the NAF recoding was tried again and exhausts the object table, DESIGN P36): '
                 'their correctness rests on division/multiplication or was not reached'),
-    'C14': dict(not_covered='the compression functions (SHA-2 rounds), SHA256FinalBits/Finalize/ResultN glue, BLAKE2s, md_xmd, AES-CBC/PKCS#7; HMAC and KDF/MGF are verified over an abstract hash for bounded lengths only: '
-                'digest and cipher values can only be compared with a second transcription of the standard, which is not a contract on one program; the wrappers were not reached'),
+    'C14': dict(not_covered='the compression / round functions (SHA-2 rounds, BLAKE2 G, AES rounds and key schedule: abstract in every unit - digest and cipher VALUES can only be compared with a second transcription of the standard, which is not a contract on one program); '
+                'SHA256FinalBits, the SHA-384/512 finalisation twins, md_xmd_sh224/384/512 (same macro as the verified md_xmd_sh256), BLAKE2s buffering; HMAC, KDF/MGF, XMD and the CBC padding are verified over abstract primitives for BOUNDED lengths (stated per unit); '
+                'observations not claimed as findings: bc_aes_cbc_enc/dec refuse the empty message, md_xmd computes ceil(len/32) in signed int before the range check (findings/c14x_repro_*.c)'),
     'C15': dict(not_covered='SHA-256 itself and hash_df values (the hash is abstract: uninterpreted for the generate path, frame-only for (re)seeding); '
                 'the output block framing of rand_gen; termination of bn_rand_mod; agreement with the CAVS vectors is the test-suite\'s job',
                 assumptions=['reseed counter < 2^31 - 600 (the int counter does not overflow)', 'bn_mod_basic: ASSUMED contract |result| < |modulus| (division not verified)']),
@@ -99,6 +100,8 @@ def all_units():
         units_c05x.register(add)
         import units_c20x
         units_c20x.register(add)
+        import units_c14x
+        units_c14x.register(add)
         # development aid: additional unit modules (comma separated) can be tried out before they are registered here
         import os, importlib
         for m in filter(None, os.environ.get('VERIF_EXTRA_UNITS', '').split(',')):
